@@ -833,6 +833,12 @@ func (fc *functionCollector) collectFromNode(node ast.Node) {
 	}
 
 	switch n := node.(type) {
+	case *ast.FunctionCall:
+		// calls reached through the generic walk below: JOIN ... ON, RETURNING, DISTINCT ON, MERGE,
+		// ON CONFLICT ... WHERE, and the ORDER BY / OVER / WITHIN GROUP parts of another call
+		if n.Name != "" {
+			fc.functions[n.Name] = true
+		}
 	case *ast.SelectStatement:
 		for _, col := range n.Columns {
 			fc.collectFromExpression(col)
